@@ -4,6 +4,7 @@
    C <entry:r|rn|st|ra> <id> <phrase> <setting> [size]
      -> ret=<NULL|out|other> errno=<..> out=<hex|unterminated> wz=<0|1> wu=<0|1> app=<0|1> abort=<0|1>
 */
+#include <alloca.h>
 #define NOBJ 8
 struct objslot { unsigned char *base; struct crypt_data *d; void *ra_data; int ra_size; };
 static __thread struct objslot objs[NOBJ];
@@ -35,6 +36,37 @@ static void op_obj (int n, char **tok)
   if (!obj_quiet) printf ("ok\n");
 }
 
+/* does `hay` contain the phrase in one of the encodings the algorithms use? (raw, UCS-2LE, DES key bytes (c << 1),
+   HMAC inner / outer pad (c ^ 0x36, c ^ 0x5c), byte-swapped 32-bit words) */
+static int find_bytes (const unsigned char *hay, size_t hl, const unsigned char *nd, size_t nl)
+{ return nl && hl >= nl && memmem (hay, hl, nd, nl) != NULL; }
+static int phrase_traces (const unsigned char *hay, size_t hl, const unsigned char *ph, size_t pl)
+{
+  if (pl < 6) return 0;
+  unsigned char *t = malloc (2 * pl + 8); int hit = 0;
+  if (find_bytes (hay, hl, ph, pl)) hit |= 1;
+  for (size_t i = 0; i < pl; i++) { t[2*i] = ph[i]; t[2*i+1] = 0; }
+  if (find_bytes (hay, hl, t, 2 * pl)) hit |= 2;
+  size_t k = pl < 8 ? pl : 8;
+  for (size_t i = 0; i < k; i++) t[i] = (unsigned char)(ph[i] << 1);
+  if (k >= 6 && find_bytes (hay, hl, t, k)) hit |= 4;
+  for (size_t i = 0; i < pl; i++) t[i] = ph[i] ^ 0x36;
+  if (find_bytes (hay, hl, t, pl)) hit |= 8;
+  for (size_t i = 0; i < pl; i++) t[i] = ph[i] ^ 0x5c;
+  if (find_bytes (hay, hl, t, pl)) hit |= 8;
+  size_t w = pl & ~(size_t)3;
+  for (size_t i = 0; i < w; i += 4) { t[i] = ph[i+3]; t[i+1] = ph[i+2]; t[i+2] = ph[i+1]; t[i+3] = ph[i]; }
+  if (w >= 8 && find_bytes (hay, hl, t, w)) hit |= 16;
+  free (t);
+  return hit;
+}
+
+#define STACK_PROBE (192 * 1024)
+static __attribute__((noinline)) void stack_poison (void)
+{ volatile unsigned char *p = alloca (STACK_PROBE); for (size_t i = 0; i < STACK_PROBE; i++) p[i] = 0xEE; }
+static __attribute__((noinline)) int stack_scan (const unsigned char *ph, size_t pl)
+{ unsigned char *p = alloca (STACK_PROBE); __asm__ volatile ("" : : "r"(p) : "memory"); return phrase_traces (p, STACK_PROBE, ph, pl); }
+
 static int scratch_zero (const struct crypt_data *d)
 {
   for (size_t i = 0; i < sizeof d->internal; i++) if (d->internal[i]) return 0;
@@ -62,6 +94,9 @@ static void op_crypt (int n, char **tok)
   if (!snap) snap = malloc (sizeof *snap);
   if (d) memcpy (snap, d, sizeof *snap);
   char *ret = NULL; int e = 0, aborted = 0;
+  static int stackscan = -1;
+  if (stackscan < 0) stackscan = getenv ("XC_STACKSCAN") != NULL;
+  if (stackscan) stack_poison ();
   jmp_buf jb; abort_jmp = &jb;
   if (!setjmp (jb))
     {
@@ -88,6 +123,13 @@ static void op_crypt (int n, char **tok)
   else if (d) printf (" wz=%d wu=? app=?", scratch_zero (d));
   else printf (" wz=? wu=? app=?");
   printf (" abort=%d", aborted);
+  if (d && phrase)
+    { /* traces of the passphrase left in the object outside the application-owned fields */
+      int tr = phrase_traces ((unsigned char *)d->output, sizeof d->output, (unsigned char *)phrase, plen)
+             | phrase_traces ((unsigned char *)d->reserved, sizeof (struct crypt_data) - offsetof (struct crypt_data, reserved), (unsigned char *)phrase, plen);
+      printf (" ph=%d", tr);
+      if (stackscan) printf (" stk=%d", stack_scan ((unsigned char *)phrase, plen));
+    }
   if (crypt_suffix) crypt_suffix ();
   printf ("\n");
   free (phrase); free (setting);
